@@ -21,13 +21,19 @@ impl<T: ToTokens, U: ToTokens> quote::ToTokens for TokenPair<T, U> {
     }
 }
 
-/// `::core::marker::<Name>` (e.g. `Sync`, `Send`): an absolute path, so that the
+/// `::core::marker::Sync` / `::core::marker::Send`: an absolute path, so that the
 /// marker trait cannot be captured by an item of the same name in the user's scope.
-pub struct CoreMarker(pub &'static str, pub proc_macro2::Span);
+pub enum CoreMarker {
+    Sync(proc_macro2::Span),
+    Send(proc_macro2::Span),
+}
 
 impl quote::ToTokens for CoreMarker {
     fn to_tokens(&self, stream: &mut TokenStream) {
-        let span = self.1;
+        let (ident, span) = match self {
+            Self::Sync(span) => (syn::Ident::new("Sync", *span), *span),
+            Self::Send(span) => (syn::Ident::new("Send", *span), *span),
+        };
         push_tokens!(
             stream,
             syn::token::PathSep(span),
@@ -35,7 +41,7 @@ impl quote::ToTokens for CoreMarker {
             syn::token::PathSep(span),
             syn::Ident::new("marker", span),
             syn::token::PathSep(span),
-            syn::Ident::new(self.0, span)
+            ident
         );
     }
 }
